@@ -344,6 +344,8 @@ def check_hist(case):
     return dict(nontrivial=nontrivial, labels=labels)
 
 
+REQUIRED_LABELS = ['histories/save-at-start', 'histories/>=2-saves-in-one-step', 'histories/restart', 'histories/implicit', 'histories/integ:gear', 'histories/stop:tottime', 'histories/stop:maxit', 'histories/stop:both', 'histories/stop:default', 'histories/dtlocal', 'histories/N:0', 'single_step/dt:local']
+
 SUBCHECKS = [
     SubCheck("single_step", check_step, strategy=strat_step, examples={"quick": 400, "thorough": 2500}, shards={"quick": 3, "thorough": 12}),
     SubCheck("histories", check_hist, strategy=strat_hist, examples={"quick": 250, "thorough": 1500}, shards={"quick": 8, "thorough": 16}),
